@@ -91,6 +91,8 @@ impl<SystemType : System> SysCache<SystemType> {
             // only the file named after the requested hash inside the cache directory is ever opened                       //# O-V-open-confined [C19]
             res matches Ok(f) ==> old(w).files.contains_key(cpath(old(w).cache_dir, ticket.bytes())) && f.content() == old(w).files[cpath(old(w).cache_dir, ticket.bytes())].content,
             res matches Err(OpenError::NotThere) ==> !old(w).files.contains_key(cpath(old(w).cache_dir, ticket.bytes())),
+            // a name that is not a FILE of the cache gets the clean NotThere -- also when a directory of that name sits there     //# O-V-open-clean-miss [C19]
+            (old(w).dirs.contains(old(w).cache_dir) && !old(w).files.contains_key(cpath(old(w).cache_dir, ticket.bytes()))) ==> res matches Err(OpenError::NotThere),
             (old(w).dirs.contains(old(w).cache_dir) && old(w).files.contains_key(cpath(old(w).cache_dir, ticket.bytes()))) ==> !(res matches Err(OpenError::NotThere)) && !(res matches Err(OpenError::CacheDirectoryMissing)),
 //@ end
 }
